@@ -283,7 +283,10 @@ func (route *baseRoute) delDestination(index int, extendConfig baseCfgExtender) 
 		return fmt.Errorf("Invalid index %d", index)
 	}
 	conf.Dests()[index].Shutdown()
-	newDests := append(conf.Dests()[:index], conf.Dests()[index+1:]...)
+	// build a new slice: the published one may still be in use by dispatchers
+	newDests := make([]*dest.Destination, 0, len(conf.Dests())-1)
+	newDests = append(newDests, conf.Dests()[:index]...)
+	newDests = append(newDests, conf.Dests()[index+1:]...)
 	newConf := extendConfig(baseConfig{*conf.Matcher(), newDests})
 	route.config.Store(newConf)
 	return nil
